@@ -464,9 +464,16 @@ impl<'a> Checker<'a> {
                         self.viol("write-to-foreign-memory", &["C03"], format!("{what}: wrote {} bytes at {:#x} into memory the injector does not own", bytes.len(), addr));
                     }
                     if own & 1 != 0 {
-                        let inside = slots.iter().any(|(s, e)| *addr >= *s && end <= *e);
+                        // 32-bit ARM: "the 12 bytes written at the function entry" (C16), whatever the pitch
+                        let lim = if self.arch == Arch::Arm { 12 } else { SLOT_() };
+                        let inside = slots.iter().any(|(s, _)| *addr >= *s && end <= *s + lim);
                         if !inside {
-                            let wprops: &[&'static str] = if self.cur_boolean { &["C03", "C10"] } else { &["C03"] };
+                            let wprops: &[&'static str] = match (self.arch, self.cur_boolean) {
+                                (Arch::Arm, true) => &["C03", "C10", "C16"],
+                                (Arch::Arm, false) => &["C03", "C16"],
+                                (_, true) => &["C03", "C10"],
+                                _ => &["C03"],
+                            };
                             self.viol(
                                 "write-outside-entry-slot",
                                 wprops,
